@@ -258,7 +258,58 @@ pub fn generate_c02(opts: &Opts, sink: &mut CaseSink) {
         sink.count_n("wire_bytes", bytes.len() as u64);
         sink.push(term, json!({"kind": "framing", "demux": [db, dh, pb], "messages": format!("{:?}", msgs), "n_bytes": bytes.len(), "decoded": format!("{:?}", decoded)}), msgs.len() >= 2);
     }
+    // a real TCP link that stays idle for a while and is then used again: nothing may be lost
+    for pause_ms in if opts.thorough { vec![12_000u64, 35_000] } else { vec![12_000u64] } {
+        let (first, second) = (200i64, 200i64);
+        let got = idle_link_job(pause_ms, first, second, opts.seed);
+        let (got_s, ok) = match &got { Ok(v) => (format!("[{}]", v.iter().map(|x| x.to_string()).collect::<Vec<_>>().join("; ")), true), Err(_) => ("[]".to_string(), false) };
+        sink.count("idle_tcp_link");
+        sink.push(format!("(CIdle {} {} {} {})", pause_ms, first + second, got_s, ok),
+                  json!({"kind": "idle TCP link", "hosts": "2 x 2 cores", "pause_ms": pause_ms, "sent": first + second, "outcome": match &got { Ok(v) => format!("{} elements", v.len()), Err(m) => m.clone() }}), true);
+    }
+}
+
+/// 2 hosts x 2 cores: a single source on host 0 emits `first` elements, pauses, emits `second`
+/// more; the elements are shuffled (so they cross the TCP links) and collected.
+fn idle_link_job(pause_ms: u64, first: i64, second: i64, seed: u64) -> Result<Vec<i64>, String> {
+    use renoir::config::ConfigBuilder;
+    let (tx, rx) = std::sync::mpsc::channel::<Result<Option<Vec<i64>>, String>>();
+    for h in 0..2u64 {
+        let tx = tx.clone();
+        std::thread::spawn(move || {
+            let r = catch(move || {
+                let mut toml = String::new();
+                for i in 0..2 { toml.push_str(&format!("[[host]]\naddress = \"127.203.{}.{}\"\nbase_port = 24300\nnum_cores = 2\n\n", seed % 250, i + 1)); }
+                let mut b = ConfigBuilder::new_remote();
+                b.parse_toml_str(&toml).unwrap();
+                b.host_id(h);
+                let env = StreamContext::new(b.build().unwrap());
+                let mut sent = 0i64;
+                let src = std::iter::from_fn(move || {
+                    if sent == first { std::thread::sleep(std::time::Duration::from_millis(pause_ms)); }
+                    if sent < first + second { sent += 1; Some(sent - 1) } else { None }
+                });
+                let out = env.stream_iter(src).shuffle().map(|x: i64| x).collect_vec();
+                env.execute_blocking();
+                out.get()
+            });
+            let _ = tx.send(r);
+        });
+    }
+    drop(tx);
+    let mut res: Option<Vec<i64>> = None;
+    for _ in 0..2 {
+        match rx.recv_timeout(std::time::Duration::from_millis(pause_ms + 60_000)) {
+            Ok(Ok(Some(v))) => res = Some(v),
+            Ok(Ok(None)) => {}
+            Ok(Err(m)) => return Err(format!("a host failed: {m}")),
+            Err(_) => return Err("hang".to_string()),
+        }
+    }
+    let mut v = res.ok_or_else(|| "no host held the result".to_string())?;
+    v.sort();
+    Ok(v)
 }
 
 pub const RULE_C03: &str = "the real End operator closing a scripted chain, every strategy (OnlyOne, Random, GroupBy on value mod 100, All/broadcast), batch modes single / fixed(1) / fixed(2..5) / fixed(1024) / adaptive(1024 | 2..5 | 1, 5 | 15 | 45 ms) under a mock clock (readings in multiples of 10 ms: bursts, short and long pauses), 1..3 downstream blocks with 1..5 replicas each (several downstream blocks per producer), 1..3 rounds with data, timestamps, watermarks and FlushBatch; distinct values so that each delivery is attributable; plus, for the scheduler's wiring of forward edges, the execution graphs of random jobs on local and heterogeneous multi-host deployments (generator of C19, every host's graph). Non-trivial: >=3 data elements and >=2 receivers / >=3 blocks and >=4 links; distinct = distinct case terms";
-pub const RULE_C02: &str = "links in memory: as C03, comparing per receiver the exact batch sequence with the model (batch boundaries included) and the conservation of elements; wire format: 1..6 messages (empty, single, up to 40 elements, extreme payloads / timestamps / replica ids) framed by the real remote_send for several destination replicas on one connection, decoded by the real remote_recv, header bytes compared with the model encoder. Non-trivial: as C03 / >=2 frames; distinct = distinct case terms";
+pub const RULE_C02: &str = "links in memory: as C03, comparing per receiver the exact batch sequence with the model (batch boundaries included) and the conservation of elements; wire format: 1..6 messages (empty, single, up to 40 elements, extreme payloads / timestamps / replica ids) framed by the real remote_send for several destination replicas on one connection, decoded by the real remote_recv, header bytes compared with the model encoder; one whole job over real TCP links (2 hosts) whose single source pauses 12 s (thorough: also 35 s) between two bursts: every element must still arrive exactly once. Non-trivial: as C03 / >=2 frames; distinct = distinct case terms";
